@@ -140,7 +140,7 @@ def run(rep: Report) -> None:
     rep.floor("node valuations", n_val, 200)
 
     # ------------------------------------------------------------ duplicates
-    for what in ("none", "link", "origin", "destination"):
+    for what in ("none", "same-names", "link", "origin", "destination"):
         gw = GWorld(prog, "casadi")
         g, key = gw.graph, gw.consts
         N = [gw.node(f"N{i}") for i in range(4)]
@@ -153,10 +153,15 @@ def run(rep: Report) -> None:
         g.add_node(N[3], **{key["DESTINATIONENTRY"]: D1 if what == "destination" else D2})
         g.add_edge(N[0], N[1], **{key["LINKENTRY"]: L1})
         g.add_edge(N[2], N[3], **{key["LINKENTRY"]: L1 if what == "link" else L2})
-        expected = what in ("none",)
+        if what == "same-names":
+            # distinct objects that merely share a name are not duplicates
+            for o_ in (L1, L2, O1, O2, D1, D2):
+                o_.attrs["name"] = "X"
+        expected = what in ("none", "same-names")
         for raises in (False, True):
             kind, r, it = run_is_valid(prog, gw, raises)
-            inst = f"two disjoint valid chains sharing {what} object, raises={raises}"
+            inst = (f"two disjoint valid chains, distinct elements all named alike, raises={raises}" if what == "same-names"
+                    else f"two disjoint valid chains sharing {what} object, raises={raises}")
             if raises:
                 good = (kind == "return") if expected else (
                     kind == "raise" and r.exc.split(".")[-1] == "InvalidNetworkError")
